@@ -2,8 +2,9 @@
 
 Handles exactly what tachys' SSR emits for the views the C07 generator builds: text with
 character references left as they are (both sides of every comparison are parsed the same
-way), `<tag>` / `</tag>` without attributes except `<template id="…">`, comments
-(`<!--…-->` and the bogus comment `<!>`), and `<script>` whose content is raw text.
+way), `<tag attr="value" …>` / `</tag>`, void elements (br, input, hr), comments
+(`<!--…-->` and the bogus comment `<!>`), and `<script>` / `<style>` / `<textarea>` whose
+content is text up to their end tag (no tags or comments inside).
 
 `Doc` mimics what a browser does with a *streamed* body: bytes are parsed incrementally,
 adjacent character data merges into one Text node, a `<template>`'s children go to its
@@ -55,7 +56,8 @@ REPLACE_TAIL = ("range.deleteContents(); let tpl = document.getElementById(`${id
 KEEP_TAIL = "close.remove();open.remove();"
 
 TOKEN_RE = re.compile(r"<!--(.*?)-->|<!>|<(/?)([a-zA-Z][a-zA-Z0-9]*)((?:\s+[a-zA-Z-]+=\"[^\"]*\")*)\s*>", re.S)
-VOID = set()
+VOID = {"br", "input", "hr"}
+RAWTEXT = {"script", "style", "textarea"}
 
 
 class Doc:
@@ -63,6 +65,7 @@ class Doc:
         self.body = Node("el", "body")
         self.stack = [self.body]       # open elements; a template pushes its content fragment
         self.scripts_run = []          # (id, replace)
+        self.script_attrs = []         # attributes of each executed script, same order
         self.pending = ""              # unparsed tail (incomplete token at a chunk boundary)
 
     # ---- tree construction
@@ -86,15 +89,17 @@ class Doc:
         n = len(s)
         while i < n:
             cur = self._cur()
-            if cur.kind == "el" and cur.data == "script":
-                j = s.find("</script>", i)
+            if cur.kind == "el" and cur.data in RAWTEXT:
+                end = "</%s>" % cur.data
+                j = s.find(end, i)
                 if j < 0:
                     self.pending = s[i:]
                     return
                 cur.append(Node("text", s[i:j])) if j > i else None
                 self.stack.pop()
-                i = j + len("</script>")
-                self._run_script(cur)
+                i = j + len(end)
+                if cur.data == "script":
+                    self._run_script(cur)
                 continue
             lt = s.find("<", i)
             if lt < 0:
@@ -138,6 +143,8 @@ class Doc:
                 attrs = dict(re.findall(r'([a-zA-Z-]+)="([^"]*)"', m.group(4) or ""))
                 el = Node("el", tag, attrs)
                 cur.append(el)
+                if tag in VOID:
+                    continue
                 if tag == "template":
                     el.content = Node("frag")
                     self.stack.append(el.content)
@@ -187,6 +194,7 @@ class Doc:
             raise ScriptError("script for id %r: marker comment not found (open=%s close=%s)"
                               % (sid, op is not None, cl is not None))
         self.scripts_run.append((sid, replace))
+        self.script_attrs.append(dict(el.attrs))
         if replace:
             if op.parent is not cl.parent:
                 raise ScriptError("markers of %r are not siblings" % sid)
@@ -226,7 +234,10 @@ def visible(node, keep_delivery=False):
         elif ch.kind == "el":
             if not keep_delivery and ch.data in ("template", "script"):
                 continue
-            out.append(("el", ch.data, visible(ch, keep_delivery)))
+            if ch.attrs:
+                out.append(("el", ch.data, visible(ch, keep_delivery), tuple(sorted(ch.attrs.items()))))
+            else:
+                out.append(("el", ch.data, visible(ch, keep_delivery)))
     return out
 
 
@@ -256,9 +267,49 @@ def strip_markers(tree):
         if n[0] == "comment" and n[1] == "":
             continue
         if n[0] == "el":
-            n = ("el", n[1], strip_markers(n[2]))
+            n = ("el", n[1], strip_markers(n[2])) + tuple(n[3:])
         if n[0] == "text" and out and out[-1][0] == "text":
             out[-1] = ("text", out[-1][1] + n[1])
         else:
             out.append(n)
     return out
+
+
+def is_branch(n):
+    return n[0] == "comment" and (n[1].startswith("bo-") or n[1].startswith("bc-"))
+
+
+def strip_branch(tree):
+    """remove the branch marker comments (<!--bo-ID-->, <!--bc-ID-->) of a `_branching` render"""
+    out = []
+    for n in tree:
+        if is_branch(n):
+            continue
+        if n[0] == "el":
+            n = ("el", n[1], strip_branch(n[2])) + tuple(n[3:])
+        if n[0] == "text" and out and out[-1][0] == "text":
+            out[-1] = ("text", out[-1][1] + n[1])
+        else:
+            out.append(n)
+    return out
+
+
+def branch_error(tree):
+    """the branch markers among the children of every element must be properly nested pairs
+    <!--bo-ID--> … <!--bc-ID--> (as in every synchronous render); returns a message or None"""
+    stack = []
+    for n in tree:
+        if is_branch(n):
+            if n[1].startswith("bo-"):
+                stack.append(n[1][3:])
+            elif not stack or stack[-1] != n[1][3:]:
+                return "branch marker <!--%s--> closes %s" % (n[1], "<!--bo-%s-->" % stack[-1] if stack else "nothing")
+            else:
+                stack.pop()
+        elif n[0] == "el":
+            e = branch_error(n[2])
+            if e:
+                return e
+    if stack:
+        return "branch marker <!--bo-%s--> is never closed" % stack[-1]
+    return None
